@@ -52,8 +52,8 @@ func (d *dependencyAwarePostProcessors) PostProcessProperties(properties []*comp
 			} else {
 				continue
 			}
-			dm := d.Registry.GetMetas(typeOption)
-			prop.Injects = append(prop.Injects, dm...)
+			//recomputed on every creation attempt: a retry after a failed creation must not accumulate candidates
+			prop.Injects = d.Registry.GetMetas(typeOption)
 			continue
 		}
 		//aware by name
@@ -63,7 +63,7 @@ func (d *dependencyAwarePostProcessors) PostProcessProperties(properties []*comp
 			if dm != nil && !dm.Type.AssignableTo(prop.Type) {
 				dm = nil
 			}
-			prop.Injects = append(prop.Injects, dm)
+			prop.Injects = []*component_definition.Meta{dm}
 		}
 	}
 	return nil, nil
